@@ -1,6 +1,7 @@
 import FeatherModel.Base.Driver
 import FeatherModel.Model.RawLayout
 import FeatherModel.Gen.RawLayouts
+import FeatherModel.Spec.JvmsRaw
 
 /-! Driver of C20: answers `raw-*` and `oracle-*` request lines with the layout interpreter run on the translated
 layouts (`Gen.RawLayouts.env`, regenerated from `raw_class_file/src/lib.rs` before this file is built). -/
@@ -41,6 +42,29 @@ def root : Ty := .ref Gen.RawLayouts.classFileId
 def fuelFor (bs : Bytes) : Nat := (bs.length + 2) * (env.defs.length + 1)
 
 def readClass (bs : Bytes) : Res (Val × Bytes) := read env (fuelFor bs) Gen.RawLayouts.classFileId none bs
+
+/-- the value lies outside the regions of the known JVMS defects -/
+def avoids (v : Val) : Bool := avoidsV env (knownBad Gen.RawLayouts.cpInfoId) root v
+
+/-- JVMS conformance of what the model writes for `v`: the output is a well-framed class file -/
+def jvmsOracle (full : Bool) (v : Val) : Ans :=
+  if !fitsV env none [] root v || !(full || avoids v) then .ok (tag "out-of-domain") else
+  match writeV env root v with
+  | none => .ok (.list [tag "fail", tag "write-panics"])
+  | some b => if JvmsRaw.Walk.classFile false b then .ok (tag "pass") else .ok (.list [tag "fail", tag "not-framed"])
+
+/-- byte round trip on the domain of well-framed class files (`known`: outside the known defect regions) -/
+def rtBytesOracle (known : Bool) (b : Bytes) : Ans :=
+  if !JvmsRaw.Walk.classFile known b then .ok (tag "out-of-domain") else
+  match read env ((b.length + 2) * (env.defs.length + 1)) Gen.RawLayouts.classFileId none b with
+  | .ok (v, rest) =>
+    if !rest.isEmpty then .ok (.list [tag "fail", tag "rest-not-empty"]) else
+    (match writeV env root v with
+     | some b' => if b' == b then .ok (tag "pass") else .ok (.list [tag "fail", tag "bytes-differ"])
+     | none => .ok (.list [tag "fail", tag "write-panics"]))
+  | .err => .ok (.list [tag "fail", tag "read-err"])
+  | .panic => .ok (.list [tag "fail", tag "read-panics"])
+  | .fuel => .skip "fuel"
 
 def panicAns : Ans := .ok (tag "panic")
 def failAns (t : String) : Ans := .ok (.list [tag "fail", tag t])
@@ -93,13 +117,29 @@ def handleC20 (op : String) (args : List Sexp) : Option Ans :=
         | .fuel => .skip "fuel")
   | "oracle-rt-bytes", [b] => do
     let b ← toBytes? b
-    pure (match readClass b with
-      | .ok (v, rest) =>
-        (match writeV env root v with
-         | some b' => if b' ++ rest == b then .ok (tag "pass") else failAns "bytes-differ"
-         | none => failAns "write-panics")
-      | .fuel => .skip "fuel"
-      | _ => .ok (tag "out-of-domain"))
+    pure (rtBytesOracle true b)
+  | "oracle-rt-bytes-full", [b] => do
+    let b ← toBytes? b
+    pure (rtBytesOracle false b)
+  | "oracle-jvms", [v] => do
+    let v ← valFrom v
+    if !typedV env root v then none else
+    pure (jvmsOracle false v)
+  | "oracle-jvms-full", [v] => do
+    let v ← valFrom v
+    if !typedV env root v then none else
+    pure (jvmsOracle true v)
+  | "raw-avoids", [v] => do
+    let v ← valFrom v
+    if !typedV env root v then none else
+    pure (.ok (ofBool (avoids v)))
+  | "jvms-frame", [k, b] => do
+    let k ← toBool? k
+    let b ← toBytes? b
+    pure (.ok (ofBool (JvmsRaw.Walk.classFile k b)))
+  | "raw-consts-agree", [b] => do
+    let b ← toBytes? b
+    pure (.ok (ofBool (constsAgree env (fuelFor b) Gen.RawLayouts.classFileId none b)))
   | _, _ => none
 
 end C20Driver
